@@ -57,6 +57,12 @@ type vcKey struct {
 	DeleteBy  func(db DB, args []any) ([]any, error)
 }
 
+// vcQuery is a custom query of the model file: UPDATE <table> SET <Set> = $1 WHERE <Where> = $2, or (Set == "") DELETE FROM <table> WHERE <Where> = $1.
+type vcQuery struct {
+	Name, Set, Where string
+	Exec             func(db DB, set, where any) error
+}
+
 type vcTable struct {
 	Go, SQL string
 	Type    vcreflect.Type
@@ -65,6 +71,7 @@ type vcTable struct {
 	Cols    []vcCol
 	FKs     []vcFK
 	Keys    []vcKey
+	Queries []vcQuery
 
 	Insert     func(db DB, row any) (any, error)
 	SelectAll  func(db DB) ([]any, error)
@@ -984,6 +991,50 @@ func TestVerifCRUD(t *vctesting.T) {
 						}
 					}
 				}
+			},
+			"customQuery": func(_ *vcrapid.T) {
+				tb := pickTable(func(t *vcTable) bool { return len(t.Queries) > 0 })
+				q := tb.Queries[vcrapid.IntRange(0, len(tb.Queries)-1).Draw(rt, "query")]
+				whereKey := vcKey{Fields: []string{q.Where}}
+				where := keyArgs(tb, whereKey)
+				match := matchKey(tb, whereKey, where)
+				if q.Set == "" {
+					next, _, allowed := model.deleteWhere(tb, match)
+					history = append(history, vcfmt.Sprintf("%s(%v) (delete, allowed: %v)", q.Name, where[0], allowed))
+					err := q.Exec(db, nil, where[0])
+					if !allowed {
+						if vcErrClass(err) != "foreign_key" {
+							fail("%s(%v) with referenced rows: expected a foreign key violation, got %v", q.Name, where[0], err)
+						}
+						return
+					}
+					if err != nil {
+						fail("%s(%v) failed: %v", q.Name, where[0], err)
+					}
+					model = next
+				} else {
+					set := keyArgs(tb, vcKey{Fields: []string{q.Set}})
+					history = append(history, vcfmt.Sprintf("%s(%v, %v) (update)", q.Name, set[0], where[0]))
+					if err := q.Exec(db, set[0], where[0]); err != nil {
+						fail("%s(%v, %v) failed: %v", q.Name, set[0], where[0], err)
+					}
+					next := model.clone()
+					rows := next.rows[tb.Go]
+					for i, r := range rows {
+						if match(r) {
+							rows[i] = vcSetField(r, q.Set, func(f vcreflect.Value) { f.Set(vcreflect.ValueOf(set[0])) })
+						}
+					}
+					model = next
+				}
+				got, err := tb.SelectAll(db)
+				if err != nil {
+					fail("SelectAll%ss after %s failed: %v", tb.Go, q.Name, err)
+				}
+				if d := vcSameMultiset(got, model.rows[tb.Go]); d != "" {
+					fail("content of %s after %s: %s", tb.SQL, q.Name, d)
+				}
+				stats["write"]++
 			},
 			"byKey": func(_ *vcrapid.T) {
 				tb := pickTable(func(t *vcTable) bool { return len(t.Keys) > 0 })
